@@ -331,6 +331,32 @@ pub struct E3Stats {
 }
 
 pub fn explore(ctx: &Ctx, versions: &[u16], bufs: &[usize], lens: &[usize], depth: usize, full: bool) -> E3Stats {
+    explore_alpha(ctx, versions, bufs, lens, depth, &|max_buf, init_len| alphabet(max_buf, init_len, full))
+}
+
+/// Calls around resizing through one handle (C08: what a grown region shows through the handle
+/// that resized it, and afterwards through a fresh one).
+pub fn resize_alphabet(_max_buf: usize, _init_len: usize) -> Vec<HCall> {
+    vec![
+        HCall::FillConsume(0),
+        HCall::Read(100),
+        HCall::Read(5000),
+        HCall::Write(100),
+        HCall::SeekStart(0),
+        HCall::SeekStart(70),
+        HCall::SeekEnd(0),
+        HCall::SetLen(0),
+        HCall::SetLen(64),
+        HCall::SetLen(100),
+        HCall::SetLen(4096),
+        HCall::SetLenPlus(-1),
+        HCall::SetLenPlus(1),
+        HCall::SetLenPlus(600),
+        HCall::Flush,
+    ]
+}
+
+pub fn explore_alpha(ctx: &Ctx, versions: &[u16], bufs: &[usize], lens: &[usize], depth: usize, alpha_of: &(dyn Fn(usize, usize) -> Vec<HCall> + Sync)) -> E3Stats {
     let mut stats = E3Stats { sequences: 0, calls: 0, configs: 0 };
     for &version in versions {
         for &init_len in lens {
@@ -343,7 +369,7 @@ pub fn explore(ctx: &Ctx, versions: &[u16], bufs: &[usize], lens: &[usize], dept
             };
             for &max_buf in bufs {
                 stats.configs += 1;
-                let alpha = alphabet(max_buf, init_len, full);
+                let alpha = alpha_of(max_buf, init_len);
                 let n = alpha.len();
                 // all sequences of length 1..=depth; parallel over the first two calls
                 let firsts: Vec<usize> = (0..n).collect();
